@@ -13,6 +13,9 @@ def main():
     r2 = gen_nitf.generate(os.path.join(GEN, 'NitfKernels.lean'))
     r3 = tables_nitf.generate(os.path.join(GEN, 'NitfTables.lean'))
     print('generated:', {'Slices': r1['unsupported'], 'NitfKernels': r2['unsupported'], 'NitfTables': len(r3['tables'])})
+    import gen_kernels2
+    r6 = gen_kernels2.generate(os.path.join(GEN, 'Kernels2.lean'))
+    print('generated:', {'Kernels2': r6['unsupported']})
     import tables_nitf2
     r4 = tables_nitf2.generate(os.path.join(GEN, 'NitfTables2.lean'))
     print('generated:', {'NitfTables2': len(r4['descs']), 'errors': r4['errors'], 'mismatches': len(r4['mismatches'])})
